@@ -484,6 +484,10 @@ class EvolvableNetwork(EvolvableModule, metaclass=NetworkMeta):
         elif is_image_space(self.observation_space):
             assert_correct_cnn_net_config(net_config)
 
+            # Same output activation as a clone built from the full configuration would get
+            if net_config.get("output_activation") is None:
+                net_config["output_activation"] = net_config.get("activation", "ReLU")
+
             encoder = EvolvableCNN(
                 input_shape=self.observation_space.shape,
                 num_outputs=self.latent_dim,
@@ -519,6 +523,12 @@ class EvolvableNetwork(EvolvableModule, metaclass=NetworkMeta):
                 # 2. Disable output_vanish
                 net_config["output_layernorm"] = net_config.get("layer_norm", True)
                 net_config["output_vanish"] = False
+
+                # Same output activation as a clone built from the full configuration would get
+                if net_config.get("output_activation") is None:
+                    net_config["output_activation"] = net_config.get(
+                        "activation", "ReLU"
+                    )
 
             encoder = encoder_mlp_cls(
                 num_inputs=spaces.flatdim(self.observation_space),
